@@ -14,6 +14,9 @@ Purely syntactic (DESIGN.md 2.2), so it reacts to exactly the edits C02's measur
   yield / yield from                                                       -> yield
   self.m(…) / X.__m(…) / X._m(…) with m a (non-listed) method of a class of the same module: m's skeleton is spliced in
   everything else is skipped; nesting is kept; statement order and (approximately) evaluation order are kept.
+  Besides the skeletons, `inPlace` lists per method the shared objects it mutates IN PLACE (subscript store / delete, mutator
+  call) as opposed to rebinding the attribute: an object handed out by reference (Info's label dict inside its Sample) must
+  only ever be rebound.
   The body of `if pid[...] != <fresh identifier>:` (the after-fork branch of MmapedValue, property C09) is not part of the
   skeleton: threads of one process never take it.
 
@@ -102,6 +105,7 @@ class Walker:
         self.closure = closure                    # closure names count as shared only inside MultiProcessValue
         self.alias = {}
         self.visiting = []
+        self.inplace = []                         # shared objects mutated IN PLACE (as opposed to rebinding the attribute)
 
     # ---- classification helpers
     def shared_of(self, n):
@@ -263,6 +267,8 @@ class Walker:
             return self.store(t.value)
         x = self.target_shared(t)
         if x is not None:
+            if isinstance(t, ast.Subscript):
+                self.inplace.append(x)            # d[k] = v / del d[k]: the object itself is changed
             return self.target_prefix(t) + [('write', x)]
         if isinstance(t, ast.Name):
             return []
@@ -323,6 +329,7 @@ class Walker:
         if isinstance(f, ast.Attribute):
             recv = self.shared_of(f.value)
             if recv is not None and f.attr in MUTATORS:
+                self.inplace.append(recv)         # x.clear() / x.update(…) / x.append(…): the object itself is changed
                 return args + [('write', recv)]
             if f.attr in USER_CALLS:
                 return self.expr(f.value) + args + [('callUser', USER_CALLS[f.attr])]
@@ -370,7 +377,7 @@ def render(items, ind=2):
     return '[\n' + ',\n'.join(pad + one(i) for i in items) + ']'
 
 
-def _emit(ok, sks, whys):
+def _emit(ok, sks, whys, inplace=None):
     out = header(TARGET, SOURCES) + DECL
     for w in whys:
         out += '-- EXTRACT-FAIL locks.%s\n' % w
@@ -381,6 +388,11 @@ def _emit(ok, sks, whys):
         names.append(nm)
         out += '/-- `%s.%s` -/\ndef %s : List Sk := %s\n' % (cls, meth, nm, render(sks.get(nm, [])))
     out += 'def all : List (String × List Sk) := [\n' + ',\n'.join('  ("%s", %s)' % (n, n) for n in names) + ']\n'
+    inplace = inplace or {}
+    out += ('/-- per method: the shared objects it changes IN PLACE (subscript store / delete, `clear`, `update`, `append`, …) rather\n'
+            'than by rebinding the attribute to a fresh object -/\n')
+    out += 'def inPlace : List (String × List Var) := [\n' + ',\n'.join(
+        '  ("%s", [%s])' % (n, ', '.join('.' + v for v in sorted(set(inplace.get(n, []))))) for n in names) + ']\n'
     return out + footer(TARGET)
 
 
@@ -388,7 +400,7 @@ FALLBACK = _emit(False, {}, ['all: extractor exception'])
 
 
 def generate(repo):
-    sks, whys = {}, []
+    sks, whys, inplace = {}, [], {}
     trees = {}
     for i, rel in enumerate(SOURCES):
         try:
@@ -418,6 +430,7 @@ def generate(repo):
             w = Walker(mod_classes[fi], cnode, cls, lock_id, closure=(factory is not None))
             w.visiting.append(fn)
             sks[nm] = w.block(fn.body)
+            inplace[nm] = list(w.inplace)
         except Fail as e:
             whys.append('%s.%s: %s' % (cls, meth, e))
-    return _emit(not whys, sks, whys)
+    return _emit(not whys, sks, whys, inplace)
